@@ -13,5 +13,5 @@ timeout 1200 /venv/bin/python $DEMO > /tmp/${PID}_demo_patched.log 2>&1; rc_patc
 echo "demo clean exit=$rc_clean patched exit=$rc_patched"
 timeout 3000 /venv/bin/python -m pytest -q -p no:cacheprovider --timeout=900 --continue-on-collection-errors --junitxml=/tmp/${PID}_verify_junit.xml > /tmp/${PID}_verify_suite.log 2>&1
 tail -1 /tmp/${PID}_verify_suite.log
-/venv/bin/python /tmp/cmp_suite.py /tmp/${PID}_verify_junit.xml
+/venv/bin/python /verif/selftest/cmp_suite.py /tmp/${PID}_verify_junit.xml
 rm -f bdm elfi/examples/cpp/bdm; rm -rf pools
